@@ -98,6 +98,9 @@ def check(run):
     run.floor('C06-AGREE', sum(1 for o in run.obs if o.rule == 'C06-AGREE'), 19)
     outfile(run, p)
     inplace(run, p)
+    from .c02 import fuzz_shape
+    fuzz_shape(run, p, 'C06-AGREE')     # the record-level fuzzy comparators use the same fuzz_down / fuzz_up as the aggregate ones
+    run.rules['C06-AGREE'] += '; the record-level fuzzy comparators df_fuzzy_gt / df_fuzzy_lt have the shape of the aggregate ones (a op b or a op fuzz_down/up(b, epsilon))'
     vername(run, p, km)
     sibling_ctor(run, p)
     from .c09 import sameprep
